@@ -132,15 +132,19 @@ impl TvfsBuilder {
             })
             .collect();
 
-        // First pass: estimate CFT size with minimum offs sizes
-        let est_entry_size_estimate = header.cft_entry_size();
-        let cft_size_estimate = (cft_entries.len() * est_entry_size_estimate) as u32;
-        header.cft_table_size = cft_size_estimate;
-
-        // Now recompute with correct offs sizes
-        let entry_size = header.cft_entry_size();
-        let cft_size = (cft_entries.len() * entry_size) as u32;
-        header.cft_table_size = cft_size;
+        // Start from the minimum offs sizes and grow until the entry size no
+        // longer changes: with PATCH_SUPPORT the entry contains a CFT offset,
+        // so a larger entry can push the table over the next width threshold
+        // once more (the entry size only ever grows, so this terminates).
+        let mut entry_size = header.cft_entry_size();
+        loop {
+            header.cft_table_size = (cft_entries.len() * entry_size) as u32;
+            let next = header.cft_entry_size();
+            if next == entry_size {
+                break;
+            }
+            entry_size = next;
+        }
 
         // Assign offsets to CFT entries
         let cft_entries: Vec<ContainerEntry> = cft_entries
